@@ -1,0 +1,371 @@
+//go:build verif
+// +build verif
+
+package raft
+
+// Contracts for the leader-side core (leader.go and the leader parts of config.go).
+// Comment-only file.
+
+// ---------------------------------------------------------------------------
+// replies: observable effect modelled by a ghost counter
+
+// (duplicate of ghost task.greplied removed: defined in verif_contracts_fsm.go)
+
+// trusted: closing the done channel is the goroutine boundary (T-go); the observable effect
+// "this task has been completed once more" is modelled by the ghost counter greplied.
+// (duplicate of func (*task).reply removed: defined in verif_contracts_fsm.go)
+
+// ---------------------------------------------------------------------------
+// queue of pending client entries: neHead -> ... -> neTail.
+// A *hypothetical* ghost labelling (set leader.gq, position newEntry.gpos, length leader.gqn) is
+// used in postconditions only ("for every labelling that describes the queue at entry ...").
+
+//@ ghost field leader.gq map[uint64]bool
+//@ ghost field leader.gqn int
+// (duplicate of ghost newEntry.gpos removed: defined in verif_contracts_fsm.go)
+
+// (duplicate of func (*entry).isLogEntry removed: defined in verif_contracts_fsm.go)
+// (duplicate of pure IsLog removed: defined in verif_contracts_fsm.go)
+
+//@ pure QElem(l *leader, x *newEntry) bool = x != nil && 0 <= x.gpos && x.gpos < l.gqn && (x.next != nil ==> l.gq[ref(x.next)] && x.next.gpos == x.gpos + 1) && (x.next == nil ==> x.gpos == l.gqn - 1)
+//@ pure QSame(x *newEntry, y *newEntry) bool = x.gpos == y.gpos ==> x == y
+//@ pure QLabel(l *leader) bool = (l.neHead == nil ==> l.gqn == 0 && l.neTail == nil) && (l.neHead != nil ==> l.gq[ref(l.neHead)] && l.neHead.gpos == 0 && l.neTail != nil && l.gq[ref(l.neTail)] && l.neTail.gpos == l.gqn - 1) && forall(x, l.gq[x] ==> QElem(l, x)) && forall(x, y, l.gq[x] && l.gq[y] ==> QSame(x, y))
+//@ pure Releasable(l *leader, x *newEntry) bool = x.index <= l.commitIndex || (x.index == l.commitIndex + 1 && !IsLog(x.typ))
+//@ pure NEok(x *newEntry) bool = x.entry != nil
+//@ pure AllNE() bool = forall(x, x != 0 ==> NEok(x))
+//@ pure NextOf(x *newEntry) *newEntry = x.next
+//@ pure CutAt(n *newEntry, o *newEntry, h *newEntry) bool = (o == h ==> n == nil) && (o != h ==> n == o)
+//@ pure Before(x *newEntry, ne *newEntry) bool = ne == nil || x.gpos < ne.gpos
+
+//@ func (*leader).applyCommitted
+//@   requires l.Raft != nil && l.storage != nil && l.fsm != nil && l.log != nil && l.log.glast == l.lastLogIndex
+//@   requires AllNE()
+//@   requires [C03.apply-view] l.commitIndex <= l.lastLogIndex
+//@   modifies l.neHead, l.neTail, newEntry.next
+//@   ensures [C07.release-reads-after-commit] l.neHead != nil ==> !Releasable(l, l.neHead)
+//@   ensures [C07.release-reads-after-commit] old(QLabel(l)) ==> forall(x, l.gq[x] && Before(x, l.neHead) ==> Releasable(l, x))
+//@   ensures [C07.queue-suffix] old(QLabel(l)) ==> (l.neHead != nil ==> l.gq[ref(l.neHead)] && l.neTail == old(l.neTail)) && (l.neHead == nil ==> l.neTail == nil) && forall(x, l.gq[x] ==> CutAt(NextOf(x), old(NextOf(x)), l.neHead))
+//@   ensures [C07.queue-suffix] old(l.neHead) == nil || !old(Releasable(l, l.neHead)) ==> l.neHead == old(l.neHead) && l.neTail == old(l.neTail) && forall(x, NextOf(x) == old(NextOf(x)))
+//@   loop 1 invariant AllNE() && l.neHead == old(l.neHead) && l.neTail == old(l.neTail) && forall(x, NextOf(x) == old(NextOf(x)))
+//@   loop 1 invariant (prev == nil ==> ne == l.neHead) && (prev != nil ==> prev.next == ne && l.neHead != nil && Releasable(l, l.neHead))
+//@   loop 1 invariant old(QLabel(l)) ==> (ne != nil ==> l.gq[ref(ne)]) && (prev != nil ==> l.gq[ref(prev)]) && forall(x, l.gq[x] && Before(x, ne) ==> Releasable(l, x))
+
+// ---------------------------------------------------------------------------
+// release (C07, C15, C16)
+
+// STUB (outside area leader)
+//@ func isClosed
+// STUB (outside area leader)
+//@ func (*Raft).isClosed
+//@   requires r.storage != nil
+// STUB (outside area leader)
+//@ func notLeaderError
+//@   requires r.storage != nil
+//@   ensures result0.Lost == lost
+
+// (duplicate of func (transfer).inProgress removed: defined in verif_contracts_repl.go)
+// (duplicate of func (transfer).targetChosen removed: defined in verif_contracts_repl.go)
+
+// (duplicate of func (*transfer).reply removed: defined in verif_contracts_repl.go)
+
+//@ pure ReplsNonNil(l *leader) bool = l.repls != nil && forall(k, has(l.repls, k) ==> l.repls[k] != nil)
+//@ pure TaskOf(x *newEntry) *task = x.task
+//@ pure GRep(t *task) int = t.greplied
+
+// waiters are addressed by ABSOLUTE position p in the backing array of l.waitStable (solver triggers)
+//@ pure WSTask(l *leader, p int) *task = raw(l.waitStable, p).task
+//@ pure InWS(l *leader, p int) bool = base(l.waitStable) <= p && p < base(l.waitStable) + len(l.waitStable)
+// hypothetical separation of the tasks owned by the leader (queue entries, waiters, transfer): only used
+// on the left of an implication, to state "exactly once"
+//@ pure TaskSep(l *leader) bool = forall(x, y, l.gq[x] && l.gq[y] && x != y && TaskOf(x) != nil ==> TaskOf(x) != TaskOf(y)) && forall(x, l.gq[x] ==> TaskOf(x) != l.transfer.task) && forall(x, i, l.gq[x] && InWS(l, i) ==> TaskOf(x) != WSTask(l, i)) && forall(i, InWS(l, i) ==> WSTask(l, i) != l.transfer.task) && forall(i, j, InWS(l, i) && InWS(l, j) && i != j ==> WSTask(l, i) != WSTask(l, j))
+
+//@ pure TransferKept(l *leader, tt *task, tm uint64, t1 *safeTimer, t2 *safeTimer) bool = l.transfer.task == tt && l.transfer.term == tm && l.transfer.timer == t1 && l.transfer.newTermTimer == t2
+
+// NOT PROVABLE WITH THE CURRENT ENGINE (reported): the part of C07.release-replies-all saying that every reply
+// carries NotLeaderError{Lost:true} or ErrServerClosed, i.e.
+//   forall(x, l.gq[x] && TaskOf(x) != nil ==> x.task.result is plainError ErrServerClosed || (istype(x.task.result, NotLeaderError) && Lost))
+// The local `err` differs between the >6 paths that reach the reply loops; the loop-head join replaces it by an
+// unconstrained value AND drops its name, so no invariant can speak about it ("unknown identifier err").
+// NOTE (engine): more than 6 paths reach loops 2 and 3; the loop-head join then forgets every heap field on
+// which the arrivals differ syntactically, including fields that no path modifies (e.g. the contents of
+// every OTHER map[uint64]*replication, which cannot be re-stated in an invariant because quantified
+// variables cannot be given a map type). A precise modifies clause therefore fails its frame obligation;
+// `modifies *` is used and the interesting unchanged state is listed explicitly in [C19.release-keeps].
+//@ func (*leader).release
+// (engine numbering: loop 1 = range l.repls, loop 2 = range l.waitStable, loop 3 = the ne chain)
+//@   requires l.Raft != nil && RaftWF(l.Raft) && l.transfer.timer != nil && l.transfer.newTermTimer != nil && ReplsNonNil(l)
+//@   modifies *
+//@   ensures [C19.release-keeps] l.Raft == old(l.Raft) && l.storage == old(l.storage) && l.term == old(l.term) && l.votedFor == old(l.votedFor) && l.commitIndex == old(l.commitIndex) && l.lastLogIndex == old(l.lastLogIndex) && l.lastLogTerm == old(l.lastLogTerm) && l.state == old(l.state) && l.configs == old(l.configs) && l.flushed == old(l.flushed) && forall(i, l.gterm[i] == old(l.gterm[i]) && l.gtyp[i] == old(l.gtyp[i])) && forall(x, NextOf(x) == old(NextOf(x)) && TaskOf(x) == old(TaskOf(x)))
+//@   ensures [C16.transfer-success-means-new-term] old(TaskSep(l) && QLabel(l) && l.transfer.timer.active) && l.transfer.task != nil ==> l.transfer.task.greplied == old(l.transfer.task.greplied) + 1 && (l.transfer.task.result == nil) == old(l.term > l.transfer.term)
+//@   ensures [C16.no-transfer-no-reply] old(TaskSep(l) && QLabel(l) && !l.transfer.timer.active) && l.transfer.task != nil ==> l.transfer.task.greplied == old(l.transfer.task.greplied)
+//@   ensures [C07.release-replies-all] old(TaskSep(l) && QLabel(l)) ==> forall(x, l.gq[x] && TaskOf(x) != nil ==> GRep(TaskOf(x)) == old(GRep(TaskOf(x))) + 1)
+//@   ensures [C15.release-replies-waiters] old(TaskSep(l) && QLabel(l)) ==> forall(i, old(InWS(l, i)) && old(WSTask(l, i)) != nil ==> GRep(old(WSTask(l, i))) == old(GRep(WSTask(l, i))) + 1)
+//@   ensures l.neHead == nil && l.neTail == nil && l.waitStable == nil && l.replUpdateCh == nil
+//@   ensures TransferKept(l, old(l.transfer.task), old(l.transfer.term), old(l.transfer.timer), old(l.transfer.newTermTimer))
+//@   ensures [C17.release-clears-leader] (old(l.leader) == l.nid ==> l.leader == 0) && (old(l.leader) != l.nid ==> l.leader == old(l.leader))
+//@   loop 1 invariant ReplsNonNil(l)
+//@   loop 3 invariant TransferKept(l, old(l.transfer.task), old(l.transfer.term), old(l.transfer.timer), old(l.transfer.newTermTimer))
+//@   loop 3 invariant (old(l.leader) == l.nid ==> l.leader == 0) && (old(l.leader) != l.nid ==> l.leader == old(l.leader))
+//@   loop 3 invariant old(TaskSep(l) && QLabel(l) && l.transfer.timer.active) && l.transfer.task != nil ==> l.transfer.task.greplied == old(l.transfer.task.greplied) + 1 && (l.transfer.task.result == nil) == old(l.term > l.transfer.term)
+//@   loop 3 invariant old(TaskSep(l) && QLabel(l) && !l.transfer.timer.active) && l.transfer.task != nil ==> l.transfer.task.greplied == old(l.transfer.task.greplied)
+//@   loop 3 invariant old(TaskSep(l) && QLabel(l)) ==> (ne != nil ==> l.gq[ref(ne)]) && forall(x, l.gq[x] && TaskOf(x) != nil ==> (Before(x, ne) ==> GRep(TaskOf(x)) == old(GRep(TaskOf(x))) + 1) && (!Before(x, ne) ==> GRep(TaskOf(x)) == old(GRep(TaskOf(x)))))
+//@   loop 3 invariant old(TaskSep(l) && QLabel(l)) ==> forall(i, InWS(l, i) && WSTask(l, i) != nil ==> GRep(WSTask(l, i)) == old(GRep(WSTask(l, i))))
+//@   loop 2 invariant TransferKept(l, old(l.transfer.task), old(l.transfer.term), old(l.transfer.timer), old(l.transfer.newTermTimer))
+//@   loop 2 invariant (old(l.leader) == l.nid ==> l.leader == 0) && (old(l.leader) != l.nid ==> l.leader == old(l.leader))
+//@   loop 2 invariant l.neHead == nil && l.neTail == nil
+//@   loop 2 invariant old(TaskSep(l) && QLabel(l) && l.transfer.timer.active) && l.transfer.task != nil ==> l.transfer.task.greplied == old(l.transfer.task.greplied) + 1 && (l.transfer.task.result == nil) == old(l.term > l.transfer.term)
+//@   loop 2 invariant old(TaskSep(l) && QLabel(l) && !l.transfer.timer.active) && l.transfer.task != nil ==> l.transfer.task.greplied == old(l.transfer.task.greplied)
+//@   loop 2 invariant old(TaskSep(l) && QLabel(l)) ==> forall(x, l.gq[x] && TaskOf(x) != nil ==> GRep(TaskOf(x)) == old(GRep(TaskOf(x))) + 1)
+//@   loop 2 invariant -1 <= rangeindex && rangeindex < len(l.waitStable)
+//@   loop 2 invariant old(TaskSep(l) && QLabel(l)) ==> forall(i, InWS(l, i) && WSTask(l, i) != nil ==> (i <= base(l.waitStable) + rangeindex ==> GRep(WSTask(l, i)) == old(GRep(WSTask(l, i))) + 1) && (i > base(l.waitStable) + rangeindex ==> GRep(WSTask(l, i)) == old(GRep(WSTask(l, i)))))
+
+// ---------------------------------------------------------------------------
+// checkQuorum (C17)
+
+// trusted (T-std / time): IsZero is a deterministic function of the representation of the time value
+// (duplicate of ghost tzero removed: defined in verif_contracts_fsm.go)
+// (duplicate of func (time.Time).IsZero removed: defined in verif_contracts_fsm.go)
+
+// every node of the latest configuration other than the leader itself has a (non-nil) replication
+// (duplicate of pure ReplsCover removed: defined in verif_contracts_majority.go)
+//@ pure ReachableV(l *leader, k uint64) bool = l.configs.Latest.Nodes[k].Voter && (k == l.nid || tzero(l.repls[k].status.noContact.wall, l.repls[k].status.noContact.ext))
+//@ pure NumReachable(l *leader) int = cntv(lam(k, ReachableV(l, k)), keys(l.configs.Latest.Nodes))
+
+//@ func (*leader).checkQuorum
+//@   requires l.Raft != nil && RaftWF(l.Raft) && l.timer != nil && ReplsCover(l)
+//@   modifies l.state, l.leader, all(l.timer)
+//@   props C15
+//@   ensures [C17.quorum-stepdown] wait == 0 && NumReachable(l) < NumVoters(l.configs.Latest)/2 + 1 ==> l.state == Follower && l.leader == 0
+//@   ensures [C17.quorum-stepdown] !(wait == 0 && NumReachable(l) < NumVoters(l.configs.Latest)/2 + 1) ==> l.state == old(l.state) && l.leader == old(l.leader)
+//@   loop 1 invariant voters == cntv(col(l.configs.Latest.Nodes, Voter), visitedset()) && reachable == cntv(lam(k, ReachableV(l, k)), visitedset()) && subset(visitedset(), keys(l.configs.Latest.Nodes))
+
+// ---------------------------------------------------------------------------
+// leader well-formedness, re-entrant stubs, commit (C02, C06)
+
+// LeaderWF implies the membership agent's MbLeaderWF (RaftWF, resolver, transfer.timer, repls non-nil with status.id == key).
+// (duplicate of pure ReplsOK removed: defined in verif_contracts_fsm.go)
+// entry.gcfgok: the entry's data is the encoding of a configuration (established by (Config).encode: C18 round trip)
+//@ ghost field entry.gcfgok bool
+//@ pure CfgEntryOK(e *entry) bool = e.typ == entryConfig ==> e.gcfgok
+//@ pure AllCfgOK() bool = forall(e, CfgEntryOK(e))
+//@ pure LeaderWF(l *leader) bool = l.Raft != nil && NodeInv(l.Raft) && l.transfer.timer != nil && l.transfer.newTermTimer != nil && l.timer != nil && ReplsOK(l) && AllNE() && AllCfgOK() && l.removeLTE <= l.lastLogIndex && l.lastLogIndex < 18446744073709551615 && MajorityPre(l)
+
+// STUB: (*leader).majorityMatchIndex is being proved separately; only what onMajorityCommit needs
+// (duplicate of func (*leader).majorityMatchIndex removed: defined in verif_contracts_majority.go)
+
+// STUB (outside area leader): re-entrant (it may call storeEntry -> onMajorityCommit -> setCommitIndex again).
+// The ensures clauses are the RELY condition that every re-entrant leader step guarantees; they are proved
+// for onMajorityCommit / setCommitIndex / storeEntry below and must be proved for checkConfigActions by its owner.
+//@ func (*leader).checkConfigActions
+//@   trusted
+//@   nilable t
+//@   requires LeaderWF(l)
+//@   modifies *
+//@   maypanic OpError
+//@   ensures LeaderWF(l) && l.Raft == old(l.Raft) && l.storage == old(l.storage) && l.startIndex == old(l.startIndex) && l.term == old(l.term) && l.nid == old(l.nid)
+//@   ensures l.commitIndex >= old(l.commitIndex) && (l.commitIndex != old(l.commitIndex) ==> l.commitIndex >= l.startIndex) && l.lastLogIndex >= old(l.lastLogIndex)
+//@   ensures [C02.own-term-entries] forall(i, old(l.lastLogIndex) < i && i <= l.lastLogIndex ==> l.gterm[i] == l.term)
+//@   ensures forall(i, i <= old(l.lastLogIndex) ==> l.gterm[i] == old(l.gterm[i]) && l.gtyp[i] == old(l.gtyp[i]))
+//@   ensures old(l.flushed >= l.commitIndex) ==> l.flushed >= l.commitIndex
+
+//@ func (Configs).IsStable
+//@   inline
+//@ pure CfgStable(c Config) bool = forall(k, has(c.Nodes, k) ==> c.Nodes[k].Action == None)
+// STUB (outside area leader), verified
+//@ func (Config).isStable
+//@   ensures result0 == CfgStable(c)
+//@   loop 1 invariant forall(k, visited(k) ==> c.Nodes[k].Action == None) && subset(visitedset(), keys(c.Nodes))
+
+// (duplicate of func (*leader).notifyFlr removed: defined in verif_contracts_fsm.go)
+
+//@ pure WSDistinct(l *leader) bool = forall(i, j, InWS(l, i) && InWS(l, j) && i != j ==> WSTask(l, i) != WSTask(l, j))
+// the configuration that Raft.setCommitIndex(index) commits / whether checkConfigActions runs afterwards
+//@ pure CommitsCfg(l *leader, index uint64) bool = !CfgCommitted(l.storage) && l.configs.Latest.Index <= index
+
+//@ func (*leader).setCommitIndex
+//@   requires LeaderWF(l) && l.flushed >= l.commitIndex
+//@   requires [C02.leader-commit-rule] l.commitIndex < index && index <= l.lastLogIndex
+//@   modifies *
+//@   maypanic OpError
+//@   ensures [C06.flush-before-advance] l.flushed >= l.commitIndex
+//@   crash_inv [C06.flush-before-advance] l.flushed >= l.commitIndex
+//@   panic_ensures [C06.flush-before-advance] old(!(CommitsCfg(l, index) && !CfgStable(l.configs.Latest))) ==> l.commitIndex == old(l.commitIndex)
+//@   ensures [C02.commit-set] old(!(CommitsCfg(l, index) && !CfgStable(l.configs.Latest))) ==> l.commitIndex == index && l.lastLogIndex == old(l.lastLogIndex) && l.configs.Latest == old(l.configs.Latest) && forall(x, NextOf(x) == old(NextOf(x))) && l.neHead == old(l.neHead) && l.neTail == old(l.neTail)
+//@   ensures [C08.stable-replies-waiters] old(CommitsCfg(l, index) && CfgStable(l.configs.Latest) && WSDistinct(l)) ==> l.waitStable == nil && forall(i, old(InWS(l, i)) && old(WSTask(l, i)) != nil ==> GRep(old(WSTask(l, i))) == old(GRep(WSTask(l, i))) + 1)
+//@   ensures [C08.unstable-keeps-waiters] old(!CommitsCfg(l, index)) ==> l.waitStable == old(l.waitStable) && forall(t, GRep(t) == old(GRep(t)))
+//@   ensures LeaderWF(l) && l.Raft == old(l.Raft) && l.storage == old(l.storage) && l.startIndex == old(l.startIndex) && l.term == old(l.term) && l.nid == old(l.nid)
+//@   ensures l.commitIndex >= index && l.lastLogIndex >= old(l.lastLogIndex)
+//@   ensures [C02.own-term-entries] forall(i, old(l.lastLogIndex) < i && i <= l.lastLogIndex ==> l.gterm[i] == l.term)
+//@   ensures forall(i, i <= old(l.lastLogIndex) ==> l.gterm[i] == old(l.gterm[i]) && l.gtyp[i] == old(l.gtyp[i]))
+//@   loop 1 invariant -1 <= rangeindex && rangeindex < len(l.waitStable)
+//@   loop 1 invariant old(WSDistinct(l)) ==> forall(i, InWS(l, i) && WSTask(l, i) != nil ==> (i <= base(l.waitStable) + rangeindex ==> GRep(WSTask(l, i)) == old(GRep(WSTask(l, i))) + 1) && (i > base(l.waitStable) + rangeindex ==> GRep(WSTask(l, i)) == old(GRep(WSTask(l, i)))))
+
+//@ func (*leader).onMajorityCommit
+//@   requires LeaderWF(l) && l.flushed >= l.commitIndex
+//@   modifies *
+//@   maypanic OpError
+//@   ensures [C02.leader-commit-rule] l.commitIndex != old(l.commitIndex) ==> l.commitIndex > old(l.commitIndex) && l.commitIndex >= l.startIndex && l.commitIndex <= l.lastLogIndex
+//@   ensures [C06.flush-before-advance] l.flushed >= l.commitIndex
+//@   ensures LeaderWF(l) && l.Raft == old(l.Raft) && l.storage == old(l.storage) && l.startIndex == old(l.startIndex) && l.term == old(l.term) && l.nid == old(l.nid)
+//@   ensures l.commitIndex >= old(l.commitIndex) && l.lastLogIndex >= old(l.lastLogIndex)
+//@   ensures [C02.own-term-entries] forall(i, old(l.lastLogIndex) < i && i <= l.lastLogIndex ==> l.gterm[i] == l.term)
+//@   ensures forall(i, i <= old(l.lastLogIndex) ==> l.gterm[i] == old(l.gterm[i]) && l.gtyp[i] == old(l.gtyp[i]))
+
+
+// ---------------------------------------------------------------------------
+// storeEntry (C07, C11, C04, C02, C06)
+
+// STUB (outside area leader), verified
+//@ func (*round).begin
+//@   inline
+//@ func (*round).finished
+//@   inline
+//@ func (*leader).beginFinishedRounds
+//@   requires l.Raft != nil && l.storage != nil && ReplsOK(l)
+//@   modifies round.Ordinal, round.Start, round.LastIndex
+//@   loop 1 invariant ReplsOK(l)
+
+// STUB (outside area leader): same rely condition as checkConfigActions (it calls it)
+//@ func (*leader).changeConfig
+//@   trusted
+//@   requires LeaderWF(l) && config.Index > l.configs.Latest.Index
+//@   modifies *
+//@   maypanic OpError
+//@   ensures LeaderWF(l) && l.Raft == old(l.Raft) && l.storage == old(l.storage) && l.startIndex == old(l.startIndex) && l.term == old(l.term) && l.nid == old(l.nid)
+//@   ensures l.commitIndex >= old(l.commitIndex) && (l.commitIndex != old(l.commitIndex) ==> l.commitIndex >= l.startIndex) && l.lastLogIndex >= old(l.lastLogIndex)
+//@   ensures forall(i, i <= old(l.lastLogIndex) ==> l.gterm[i] == old(l.gterm[i]) && l.gtyp[i] == old(l.gtyp[i]))
+//@   ensures forall(i, old(l.lastLogIndex) < i && i <= l.lastLogIndex ==> l.gterm[i] == l.term)
+//@   ensures old(l.flushed >= l.commitIndex) ==> l.flushed >= l.commitIndex
+
+// trusted views used only inside storeEntry:
+//  - appendEntry: the base contract plus [T-storage.index-space]: the index space is never exhausted
+//    (every entry occupies at least one byte of storage), needed because the batch length is unbounded
+//  - (*Config).decode: the base contract plus [C18.config-roundtrip]: an entry marked gcfgok decodes
+//@ view (*storage).appendEntry at (*leader).storeEntry
+//@   requires [C04.append-contiguous] e.index == s.lastLogIndex + 1
+//@   requires s.log != nil
+//@   modifies s.lastLogIndex, s.lastLogTerm, s.gterm, s.gtyp, s.log.glast
+//@   maypanic OpError
+//@   ensures s.lastLogIndex == e.index && s.lastLogTerm == e.term && s.log.glast == e.index
+//@   ensures s.gterm[e.index] == e.term && s.gtyp[e.index] == e.typ
+//@   ensures forall(i, i != e.index ==> s.gterm[i] == old(s.gterm[i]) && s.gtyp[i] == old(s.gtyp[i]))
+//@   ensures [T-storage.index-space] s.lastLogIndex < 18446744073709551615
+//@ view (*Config).decode at (*leader).storeEntry
+//@   modifies all(c)
+//@   ensures result0 == nil ==> c.Index == e.index && c.Term == e.term
+//@   ensures [C18.config-roundtrip] e.gcfgok ==> result0 == nil
+
+// hypothetical labelling of the submitted chain ne0 -> ... : set leader.gch, position newEntry.gcpos,
+// newEntry.gnlog = number of log entries strictly before the element, leader.gchn = length,
+// leader.gchlog = number of log entries of the whole chain. Only used on the left of implications.
+//@ ghost field leader.gch map[uint64]bool
+//@ ghost field leader.gchn int
+//@ ghost field leader.gchlog int
+//@ ghost field newEntry.gcpos int
+//@ ghost field newEntry.gnlog int
+//@ pure EntryOf(x *newEntry) *entry = x.entry
+//@ pure TypOf(x *newEntry) entryType = x.typ
+//@ pure ETyp(e *entry) entryType = e.typ
+//@ pure EIdx(x *newEntry) uint64 = x.index
+//@ pure ETerm(x *newEntry) uint64 = x.term
+//@ pure GNLog(x *newEntry) int = x.gnlog
+//@ pure LogInc(x *newEntry) int = ite(IsLog(x.typ), 1, 0)
+//@ pure CElem(l *leader, x *newEntry) bool = x != nil && 0 <= x.gcpos && x.gcpos < l.gchn && 0 <= x.gnlog && (x.next != nil ==> l.gch[ref(x.next)] && x.next.gcpos == x.gcpos + 1 && x.next.gnlog == x.gnlog + LogInc(x)) && (x.next == nil ==> x.gcpos == l.gchn - 1 && l.gchlog == x.gnlog + LogInc(x))
+//@ pure CSame(x *newEntry, y *newEntry) bool = x.gcpos == y.gcpos ==> x == y
+//@ pure CSep(x *newEntry, y *newEntry) bool = x != y ==> x.entry != y.entry && (x.task != nil ==> x.task != y.task)
+//@ pure ChainLabel(l *leader, h *newEntry) bool = l.gch[ref(h)] && h.gcpos == 0 && h.gnlog == 0 && forall(x, l.gch[x] ==> CElem(l, x)) && forall(x, y, l.gch[x] && l.gch[y] ==> CSame(x, y) && CSep(x, y))
+//@ pure NoCfg(l *leader) bool = forall(x, l.gch[x] ==> TypOf(x) != entryConfig)
+//@ pure HY(l *leader, h *newEntry) bool = ChainLabel(l, h) && NoCfg(l) && (l.neTail != nil ==> !l.gch[ref(l.neTail)])
+//@ pure CBefore(x *newEntry, ne *newEntry) bool = ne == nil || x.gcpos < ne.gcpos
+//@ pure CurLog(l *leader, ne *newEntry) int = ite(ne == nil, l.gchlog, ne.gnlog)
+//@ pure Rej(l *leader) bool = l.transfer.timer.active || !l.node.Voter
+//@ pure InProg(t *task) bool = istype(t.result, InProgressError)
+//@ pure Fast(l *leader) bool = l.numVoters == 1 && l.node.Voter
+
+//@ func (*leader).storeEntry params(l, ne0)
+//@   requires LeaderWF(l) && l.flushed >= l.commitIndex
+//@   modifies *
+//@   maypanic OpError
+//@   props C15
+//@   ensures [C07.reject-during-transfer] old(HY(l, ne0) && l.transfer.timer.active) ==> l.lastLogIndex == old(l.lastLogIndex) && forall(i, l.gterm[i] == old(l.gterm[i]) && l.gtyp[i] == old(l.gtyp[i])) && forall(x, old(l.gch[x]) && TaskOf(x) != nil ==> GRep(TaskOf(x)) == old(GRep(TaskOf(x))) + 1 && InProg(TaskOf(x)))
+//@   ensures [C11.nonvoter-leader-rejects] old(HY(l, ne0) && !l.node.Voter) ==> l.lastLogIndex == old(l.lastLogIndex) && forall(i, l.gterm[i] == old(l.gterm[i]) && l.gtyp[i] == old(l.gtyp[i])) && forall(x, old(l.gch[x]) && TaskOf(x) != nil ==> GRep(TaskOf(x)) == old(GRep(TaskOf(x))) + 1 && InProg(TaskOf(x)))
+//@   ensures [C07.store-order] old(HY(l, ne0) && !Rej(l)) ==> l.lastLogIndex >= old(l.lastLogIndex) + old(l.gchlog) && forall(x, old(l.gch[x]) && IsLog(old(TypOf(x))) ==> l.gtyp[old(l.lastLogIndex) + 1 + old(GNLog(x))] == old(TypOf(x)) && l.gterm[old(l.lastLogIndex) + 1 + old(GNLog(x))] == l.term)
+//@   ensures [C07.store-order] old(HY(l, ne0) && !Rej(l) && !Fast(l)) ==> l.lastLogIndex == old(l.lastLogIndex) + old(l.gchlog) && forall(x, old(l.gch[x]) ==> EIdx(x) == old(l.lastLogIndex) + 1 + old(GNLog(x)) && ETerm(x) == l.term)
+//@   ensures [C07.no-reply-before-commit] old(HY(l, ne0) && !Rej(l) && !Fast(l)) ==> forall(t, GRep(t) == old(GRep(t))) && l.commitIndex == old(l.commitIndex)
+//@   ensures [C07.queue-order] old(HY(l, ne0) && !Rej(l) && !Fast(l) && l.neHead != nil && l.neTail != nil && IsLog(l.neHead.typ)) ==> l.neHead == old(l.neHead) && NextOf(old(l.neTail)) == ne0 && forall(x, old(l.gch[x]) ==> NextOf(x) == old(NextOf(x))) && l.neTail != nil && forall(x, x == ref(l.neTail) ==> old(l.gch[x]) && NextOf(x) == nil)
+//@   ensures [C06.fast-path-single-voter] old(HY(l, ne0) && !Fast(l)) ==> l.commitIndex == old(l.commitIndex)
+//@   ensures [C04.leader-append-only] l.lastLogIndex >= old(l.lastLogIndex) && forall(i, i <= old(l.lastLogIndex) ==> l.gterm[i] == old(l.gterm[i]) && l.gtyp[i] == old(l.gtyp[i]))
+//@   ensures [C02.own-term-entries] forall(i, old(l.lastLogIndex) < i && i <= l.lastLogIndex ==> l.gterm[i] == l.term)
+//@   ensures LeaderWF(l) && l.Raft == old(l.Raft) && l.storage == old(l.storage) && l.startIndex == old(l.startIndex) && l.term == old(l.term) && l.nid == old(l.nid)
+//@   ensures l.commitIndex >= old(l.commitIndex) && (l.commitIndex != old(l.commitIndex) ==> l.commitIndex >= l.startIndex)
+//@   ensures [C06.flush-before-advance] l.flushed >= l.commitIndex
+//@   loop 1 invariant LeaderWF(l) && l.Raft == old(l.Raft) && l.storage == old(l.storage) && l.startIndex == old(l.startIndex) && l.term == old(l.term) && l.nid == old(l.nid)
+//@   loop 1 invariant l.commitIndex >= old(l.commitIndex) && (l.commitIndex != old(l.commitIndex) ==> l.commitIndex >= l.startIndex) && l.flushed >= l.commitIndex
+//@   loop 1 invariant l.lastLogIndex >= old(l.lastLogIndex) && lastIndex == old(l.lastLogIndex) && forall(i, i <= old(l.lastLogIndex) ==> l.gterm[i] == old(l.gterm[i]) && l.gtyp[i] == old(l.gtyp[i]))
+//@   loop 1 invariant forall(i, old(l.lastLogIndex) < i && i <= l.lastLogIndex ==> l.gterm[i] == l.term)
+//@   loop 1 invariant old(HY(l, ne0)) ==> (ne != nil ==> old(l.gch[ref(ne)])) && l.transfer.timer == old(l.transfer.timer) && l.transfer.timer.active == old(l.transfer.timer.active) && l.node.Voter == old(l.node.Voter) && l.numVoters == old(l.numVoters)
+//@   loop 1 invariant old(HY(l, ne0)) ==> forall(x, old(l.gch[x]) ==> TaskOf(x) == old(TaskOf(x)) && EntryOf(x) == old(EntryOf(x)) && TypOf(x) == old(TypOf(x)) && (!old(CBefore(x, ne)) ==> NextOf(x) == old(NextOf(x))))
+//@   loop 1 invariant old(HY(l, ne0) && Rej(l)) ==> l.lastLogIndex == old(l.lastLogIndex) && forall(i, l.gterm[i] == old(l.gterm[i]) && l.gtyp[i] == old(l.gtyp[i])) && l.neHead == old(l.neHead) && l.neTail == old(l.neTail)
+//@   loop 1 invariant old(HY(l, ne0) && Rej(l)) ==> forall(x, old(l.gch[x]) && TaskOf(x) != nil ==> (old(CBefore(x, ne)) ==> GRep(TaskOf(x)) == old(GRep(TaskOf(x))) + 1 && InProg(TaskOf(x))) && (!old(CBefore(x, ne)) ==> GRep(TaskOf(x)) == old(GRep(TaskOf(x)))))
+//@   loop 1 invariant old(HY(l, ne0) && !Rej(l)) ==> l.neTail == old(l.neTail) || forall(x, x == ref(l.neTail) ==> x != 0 && old(l.gch[x]) && old(CBefore(x, ne)))
+//@   loop 1 invariant old(HY(l, ne0) && !Rej(l)) ==> l.lastLogIndex == old(l.lastLogIndex) + old(CurLog(l, ne)) && forall(t, GRep(t) == old(GRep(t)))
+//@   loop 1 invariant old(HY(l, ne0) && !Rej(l)) ==> forall(x, old(l.gch[x]) && old(CBefore(x, ne)) ==> EIdx(x) == old(l.lastLogIndex) + 1 + old(GNLog(x)) && ETerm(x) == l.term && (IsLog(TypOf(x)) ==> EIdx(x) <= l.lastLogIndex && l.gtyp[EIdx(x)] == TypOf(x)))
+//@   loop 1 invariant old(HY(l, ne0)) ==> forall(e, ETyp(e) == old(ETyp(e))) && forall(x, TaskOf(x) == old(TaskOf(x)) && EntryOf(x) == old(EntryOf(x))) && l.commitIndex == old(l.commitIndex)
+//@   loop 1 invariant old(HY(l, ne0) && !Rej(l)) ==> forall(x, old(l.gch[x]) ==> NextOf(x) == old(NextOf(x)))
+//@   loop 1 invariant old(HY(l, ne0) && !Rej(l)) && ne != ne0 ==> (old(l.neTail) != nil ==> NextOf(old(l.neTail)) == ne0 && l.neHead == old(l.neHead)) && (old(l.neTail) == nil ==> l.neHead == ne0) && l.neTail != old(l.neTail)
+//@   loop 1 invariant old(HY(l, ne0) && !Rej(l)) && ne == ne0 ==> l.neTail == old(l.neTail) && l.neHead == old(l.neHead)
+//@   loop 1 invariant old(HY(l, ne0) && !Rej(l)) && ne != ne0 ==> forall(x, x == ref(l.neTail) ==> NextOf(x) == ne)
+
+// ---------------------------------------------------------------------------
+// init / addReplication / onTimeout / checkLogCompact
+
+// STUB (outside area leader): timers and randomness (T-go / time)
+//@ func newSafeTimer
+//@   trusted
+//@   ensures result0 != nil && isfresh(result0) && !result0.active
+//@ func newRandTime
+//@   trusted
+
+//@ func (*leader).addReplication
+//@   requires l.Raft != nil && l.storage != nil && PoolsInv(l.Raft) && l.repls != nil && l.log != nil && l.log.glast == l.lastLogIndex
+//@   requires [C15.no-self-replication] n.ID != l.nid
+//@   requires [C15.view-bounds] l.removeLTE <= l.lastLogIndex
+//@   modifies contents(l.repls), contents(l.connPools)
+//@   props C15
+//@   ensures has(l.repls, n.ID) && l.repls[n.ID] != nil && isfresh(l.repls[n.ID]) && l.repls[n.ID].status.id == n.ID && l.repls[n.ID].status.matchIndex == 0 && l.repls[n.ID].status.node == n && !l.repls[n.ID].status.removed
+//@   ensures forall(k, k != n.ID ==> has(l.repls, k) == old(has(l.repls, k)) && l.repls[k] == old(l.repls[k]))
+//@   ensures PoolsInv(l.Raft)
+
+//@ pure CfgIDs(c Config) bool = forall(k, has(c.Nodes, k) ==> c.Nodes[k].ID == k)
+
+//@ func (*leader).init
+//@   requires l.Raft != nil && NodeInv(l.Raft) && PoolsInv(l.Raft) && l.transfer.timer != nil && l.transfer.newTermTimer != nil && l.timer != nil && ReplsOK(l) && AllNE() && AllCfgOK()
+//@   requires l.lastLogIndex < 18446744073709551615 && l.flushed >= l.commitIndex && CfgIDs(l.configs.Latest)
+//@   requires l.repls != nil && KeyIsID(l.configs.Latest) && NumVoters(l.configs.Latest) >= 1
+//@   requires [C15.leader-is-self] l.leader == l.nid
+//@   modifies *
+//@   maypanic OpError
+//@   props C15
+//@   ensures [C02.start-index] l.startIndex == old(l.lastLogIndex) + 1 && l.term == old(l.term)
+//@   ensures [C02.own-term-entries] forall(i, l.startIndex <= i && i <= l.lastLogIndex ==> l.gterm[i] == l.term)
+//@   ensures [C04.leader-append-only] l.lastLogIndex >= old(l.lastLogIndex) && forall(i, i <= old(l.lastLogIndex) ==> l.gterm[i] == old(l.gterm[i]) && l.gtyp[i] == old(l.gtyp[i]))
+//@   ensures [C02.leader-commit-rule] l.commitIndex >= old(l.commitIndex) && (l.commitIndex != old(l.commitIndex) ==> l.commitIndex >= l.startIndex)
+//@   ensures [C06.flush-before-advance] l.flushed >= l.commitIndex
+//@   ensures LeaderWF(l)
+//@   loop 1 invariant l.Raft != nil && NodeInv(l.Raft) && PoolsInv(l.Raft) && ReplsOK(l) && l.removeLTE <= l.lastLogIndex && l.repls != nil && LeaderCache(l) && subset(visitedset(), keys(l.configs.Latest.Nodes)) && forall(k, visited(k) && k != l.nid ==> has(l.repls, k) && l.repls[k] != nil)
+
+//@ func (*leader).onTimeout
+//@   requires l.Raft != nil && RaftWF(l.Raft) && l.timer != nil && ReplsCover(l)
+//@   modifies l.state, l.leader, all(l.timer)
+//@   ensures [C17.quorum-stepdown] NumReachable(l) < NumVoters(l.configs.Latest)/2 + 1 ==> l.state == Follower && l.leader == 0
+//@   ensures [C17.quorum-stepdown] !(NumReachable(l) < NumVoters(l.configs.Latest)/2 + 1) ==> l.state == old(l.state) && l.leader == old(l.leader)
+
+// STUB (outside area leader)
+// (duplicate of func (*Raft).compactLog removed: defined in verif_contracts_fsm.go)
+
+//@ func (*leader).checkLogCompact
+//@   requires l.Raft != nil && RaftWF(l.Raft) && l.log != nil && ReplsNonNil(l) && l.removeLTE <= l.snaps.index
+//@   modifies l.log.gprev
+//@   props C15
+//@   ensures [C09.compact-after-all-followers] l.log.gprev != old(l.log.gprev) ==> forall(k, has(l.repls, k) ==> l.repls[k].status.removeLTE >= l.removeLTE)
+//@   loop 1 invariant forall(k, visited(k) ==> l.repls[k].status.removeLTE >= l.removeLTE) && subset(visitedset(), keys(l.repls))
